@@ -85,6 +85,29 @@ def _displayed(x):
     return t
 
 
+def _after_html_twin(x):
+    """The equal text was rendered as trusted HTML() just before: the plain twin is still escaped."""
+    div(ht.HTML(str(x))).get_html_string()
+    ht.TagList(ht.HTML(str(x)), span()).get_html_string()
+    return div(x).get_html_string()
+
+
+def _after_failed_script_render(x):
+    """A rendering of a <script> that fails half-way must not leave later renderings in raw-text mode."""
+    for bad in (ht.tags.script("a", _TFLeaf("u", False), "b"), ht.tags.style("c", _TFLeaf("u", True))):
+        try:
+            bad.get_html_string()
+        except Exception:
+            pass
+    return div(span(), x).get_html_string()
+
+
+def _renamed_from_script(x, multi):
+    t = ht.tags.script(x, "t") if multi else ht.tags.script(x)
+    t.name = "section"
+    return t.get_html_string()
+
+
 def _doc_append(x):
     d = ht.HTMLDocument(div("a"))
     d.append(x, span("z"))
@@ -92,6 +115,10 @@ def _doc_append(x):
 
 
 PATHS = {
+    "after_html_twin": _after_html_twin,
+    "after_failed_script_render": _after_failed_script_render,
+    "renamed_from_script": lambda x: _renamed_from_script(x, False),
+    "renamed_from_style_multi": lambda x: _renamed_from_script(x, True),
     "parent_styled_button": lambda x: ht.Tag("styled-button", x).get_html_string(),
     "parent_script_editor_multi": lambda x: ht.Tag("script-editor", span(), x).get_html_string(),
     "parent_stylesheet": lambda x: ht.Tag("stylesheet", x, "t").get_html_string(),
